@@ -278,11 +278,54 @@ def judgeChoose (o : Op) (impl : String) : String :=
     if impl == want then "ok" else s!"want {want.take 40}"
   | _, _, _ => "bad-op"
 
+def allNames : List String :=
+  ["curve25519-sha256", "curve25519-sha256@libssh.org", "diffie-hellman-group-exchange-sha1",
+   "diffie-hellman-group-exchange-sha256", "diffie-hellman-group1-sha1", "diffie-hellman-group14-sha1",
+   "diffie-hellman-group14-sha256", "diffie-hellman-group16-sha512", "ecdh-sha2-nistp256", "ecdh-sha2-nistp384",
+   "ecdh-sha2-nistp521", "mlkem768x25519-sha256"]
+
+def csv (s : String) : List String := if s == "-" || s == "" then [] else s.splitOn ","
+
+/-- the method table: exactly the names the model knows; everything advertised is in it; the default list only
+    contains known methods and offers the libssh alias whenever it offers curve25519-sha256 -/
+def judgeNames (i : Op) : String :=
+  let names := csv (i.str "names")
+  let adv := csv (i.str "supported") ++ csv (i.str "insecure")
+  let dflt := csv (i.str "default")
+  if names.any (fun n => (methodOf n).isNone) then "kexAlgoMap has a method the model does not know"
+  else if allNames.any (fun n => !names.contains n) then "kexAlgoMap lacks a method of the model"
+  else if adv.any (fun n => !names.contains n) then "an advertised key exchange is not in kexAlgoMap"
+  else if names.any (fun n => !adv.contains n && n != "curve25519-sha256@libssh.org") then "a kexAlgoMap entry is not advertised"
+  else if dflt.any (fun n => !names.contains n) then "a default key exchange is not in kexAlgoMap"
+  else if dflt.contains "curve25519-sha256" && !dflt.contains "curve25519-sha256@libssh.org" then "SetDefaults does not add the libssh alias"
+  else "ok"
+
+def hashSize : HashId → Nat
+  | .sha1 => 20 | .sha256 => 32 | .sha384 => 48 | .sha512 => 64
+
+/-- a whole connection set-up through NewClientConn / NewServerConn -/
+def judgeConn (o i : Op) : String :=
+  match methodOf (o.str "m") with
+  | none => "bad-op"
+  | some m =>
+    if o.str "cb" == "wrong" then
+      -- the host key callback refuses the key: the client must fail (the server then fails too)
+      if i.str "c" == "err" then "ok" else "client connected although its HostKeyCallback rejects the host key"
+    else if i.str "c" != "ok" || i.str "s" != "ok" then s!"connection set-up failed: c={i.str "c"} s={i.str "s"}"
+    else if i.str "sideq" != "1" then "SessionID differs between client and server"
+    else if i.nat? "sidlen" != some (hashSize m.hash) then "SessionID has the wrong length for the method's hash"
+    else if i.str "ver" != "1" then "ClientVersion / ServerVersion are not the configured strings on both sides"
+    else if i.str "ckex" != o.str "m" || i.str "skex" != o.str "m" then "negotiated key exchange is not the configured one"
+    else if i.str "chk" != o.str "hk" || i.str "shk" != o.str "hk" then "negotiated host key algorithm is not the configured one"
+    else "ok"
+
 def handle (line : String) : String :=
   match line.splitOn "\t" with
   | [opS, implS] =>
     let o := parseOp opS
-    if o.cmd == "choose" then judgeChoose o implS
+    if o.cmd == "names" then judgeNames (parseOp implS)
+    else if o.cmd == "conn" then judgeConn o (parseOp implS)
+    else if o.cmd == "choose" then judgeChoose o implS
     else if o.cmd == "kex" then judgeKex o (parseOp implS)
     else "bad-op"
   | _ => "bad-op"
